@@ -40,79 +40,6 @@ fn at<T: ?Sized>(base: *const u8, t: &T) -> i64 {
 }
 
 
-/// Iterator-protocol probe: every other route through the `Iterator` API (`nth`, `count`, `last`, `skip`, `step_by`,
-/// `size_hint`, clones taken mid-way) must agree with plain `next()`-draining. `mk` makes a fresh iterator, `key` renders an
-/// item as a comparable key (address or decoded fields). Returns what disagreed, or None. Only called when the plain drain
-/// ended normally with `n` items.
-fn probe<I, K>(mk: impl Fn() -> I, key: impl Fn(I::Item) -> K + Copy, n: usize, hint: bool) -> Option<String>
-where
-    I: Iterator + Clone,
-    K: PartialEq,
-{
-    if n > 512 {
-        return None;
-    }
-    let r = guarded(|| {
-        let refs: Vec<K> = mk().map(key).collect();
-        if refs.len() != n {
-            return Some(format!("collect:{}", refs.len()));
-        }
-        for k in 0..=n + 1 {
-            let got = mk().nth(k).map(key);
-            if got.as_ref() != refs.get(k) {
-                return Some(format!("nth({})", k));
-            }
-            let got = mk().skip(k).next().map(key);
-            if got.as_ref() != refs.get(k) {
-                return Some(format!("skip({})", k));
-            }
-        }
-        if mk().count() != n {
-            return Some("count".into());
-        }
-        if mk().last().map(key).as_ref() != refs.last() {
-            return Some("last".into());
-        }
-        for s in 1..=3usize {
-            let got: Vec<K> = mk().step_by(s).map(key).collect();
-            let want: Vec<&K> = refs.iter().step_by(s).collect();
-            if got.len() != want.len() || got.iter().zip(want.iter()).any(|(a, b)| a != *b) {
-                return Some(format!("step_by({})", s));
-            }
-        }
-        // (the ELF iterator reports the number of ENTRIES left, of which unused ones are skipped: its lower bound is not
-        // compared - the property says nothing about it)
-        let (lo, hi) = mk().size_hint();
-        if hint && (lo > n || hi.map(|h| h < n).unwrap_or(false)) {
-            return Some("size_hint".into());
-        }
-        // consecutive nth(0) calls behave like next(); nth after exhaustion stays None
-        let mut it = mk();
-        for k in 0..n {
-            if it.nth(0).map(key).as_ref() != refs.get(k) {
-                return Some(format!("nth0@{}", k));
-            }
-        }
-        if it.nth(0).is_some() || it.next().is_some() || it.nth(3).is_some() {
-            return Some("after-end".into());
-        }
-        // clones taken at every position continue with the remaining suffix
-        let mut it = mk();
-        for k in 0..=n {
-            let rest: Vec<K> = it.clone().map(key).collect();
-            if rest.len() != n - k || rest.iter().zip(refs[k..].iter()).any(|(a, b)| a != b) {
-                return Some(format!("clone@{}", k));
-            }
-            it.next();
-        }
-        None
-    });
-    match r {
-        Ok(x) => x,
-        Err(()) => Some("panic".into()),
-    }
-}
-
 /// getter wrapper: `-` none, `P` panic, `@off{...}`
 fn getter<'a, T: ?Sized + 'a>(
     out: &mut String,
@@ -143,7 +70,10 @@ pub fn sweep_bi(out: &mut String, base: *const u8, bi: &BootInformation) {
         loop {
             match guarded(|| it.next()) {
                 Err(()) => {
-                    out.push_str("|panic");
+                    match probe_panicked(|| bi.tags(), |t| t as *const _ as *const u8 as usize, n) {
+                        None => out.push_str("|panic"),
+                        Some(w) => write!(out, "|probe:{}", w).unwrap(),
+                    }
                     break;
                 }
                 Ok(None) => {
